@@ -320,6 +320,41 @@ def wrap_resume(profile, ver, start, clean_next=0):
     return s.lines
 
 
+@robust
+def resume_other_window(profile, ver, w1, w2, clean_next, when):
+    """messages of every QoS accepted behind a full window w1, the connection lost, and the next protocol of the address given a window w2
+    (set before connect(), between connect() and CONNACK, or after the CONNACK): what was held back is released as far as w2 allows, first
+    transmissions without DUP (a QoS 0 message never carries DUP), re-sent ones with DUP; then everything is acknowledged"""
+    s = Script(profile)
+    s.do('build a0'); s.do('sethandlers 0 7'); s.do('connect 0 %s 0 %s 0' % (s_tok('rw'), ver)); s.do('recv 0 20020000'); s.do('setwin 0 %d' % w1)
+    ids = []
+    for i, q in enumerate((1, 0, 2, 0, 1, 2, 1)):
+        s.do('publish 0 %s b:%02x %d %d' % (s_tok('rw/%d' % i), 0x60 + i, q, i % 2))
+    s.do('lost 0 lostc'); s.do('build a0'); s.do('sethandlers 1 7')
+    if when == 'before':
+        s.do('setwin 1 %d' % w2)
+    s.do('connect 1 %s 0 %s %d' % (s_tok('rw'), ver, clean_next))
+    if when == 'connecting':
+        s.do('setwin 1 %d' % w2)
+    s.do('recv 1 %s' % hx(connack(0, 0 if clean_next else 1)))
+    if when == 'after':
+        s.do('setwin 1 %d' % w2)
+        s.do('publish 1 %s b:7f 0 0' % s_tok('rw/late'))
+    f = s.w.factory
+    for _ in range(12):
+        a = s.w.protos[1].addr
+        pend = [(r.msgId, r.qos) for r in f.windowPublish.get(a, {}).values()]
+        rel = list(f.windowPubRelease.get(a, {}).keys())
+        if not pend and not rel:
+            break
+        for m, q in pend:
+            s.do('recv 1 %s' % hx(ack(0x40 if q == 1 else 0x50, m)))
+        for m in rel:
+            s.do('recv 1 %s' % hx(ack(0x70, m)))
+    s.do('lost 1 done'); s.fire_all(3)
+    return s.lines
+
+
 def for_prop(prop, ctx):
     """the long/large scenarios relevant to a property, as (name, lines)"""
     quick = ctx['tier'] == 'quick'
@@ -366,6 +401,14 @@ def for_prop(prop, ctx):
             add('wrap-resume-%d' % start, wrap_resume(3 if start % 2 else 2, '311' if start != 65533 else '31', start))
         if prop == 'C12':
             add('wrap-resume-clean', wrap_resume(3, '311', 65532, clean_next=1))
+    if prop in ('C18', 'C12', 'C10', 'C02', 'C11', 'C05'):
+        for (w1, w2) in ((1, 4), (2, 3), (3, 1)):
+            for when in ('before', 'connecting', 'after'):
+                for clean_next in ((0, 1) if prop in ('C12', 'C10', 'C11') else (0,)):
+                    if quick and (w1, w2) == (2, 3) and when != 'before':
+                        continue
+                    add('resume-window-%d-%d-%s-%d' % (w1, w2, when, clean_next),
+                        resume_other_window(3 if w1 != 2 else 2, '311' if w1 != 3 else '31', w1, w2, clean_next, when))
     if prop in ('C07', 'C01', 'C02'):
         for n in (125, 126, 127, 200):
             add('topics-%d' % n, many_topics(3 if n != 127 else 1, '311' if n % 2 else '31', n))
